@@ -1,7 +1,7 @@
 //! Expansion witness for `to_dyn!`: a downstream crate whose MIR the driver exports, so that the analysis sees what the
 //! macro expands to in a CALLING crate (built once with none of its own features and once with `alloc,std`).
+//! Deliberately imports NOTHING from rrtk: every name the expansion needs must come through `$crate`.
 #![allow(unused)]
-use rrtk::*;
 pub trait Tr {
     fn f(&self) -> i32;
 }
@@ -11,6 +11,6 @@ impl Tr for Foo {
         self.0
     }
 }
-pub fn conv(r: Reference<Foo>) -> Reference<dyn Tr> {
-    to_dyn!(Tr, r)
+pub fn conv(r: rrtk::Reference<Foo>) -> rrtk::Reference<dyn Tr> {
+    rrtk::to_dyn!(Tr, r)
 }
